@@ -18,7 +18,7 @@ class KDComposeTransform(KDTransform):
 
     @property
     def is_kd_transform(self):
-        return all(isinstance(t, KDTransform))
+        return all(isinstance(t, KDTransform) for t in self.transforms)
 
     def __call__(self, x, ctx=None):
         if ctx is None:
